@@ -10,7 +10,7 @@ from contracts import lexspec
 from vc import automata as A
 from vc import reader as R
 from vc.deffun import DefFun
-from vc.propkit import explore, judge, src_of, is_lib_exc, outcomes_to_results
+from vc.propkit import explore, judge, src_of, is_lib_exc, outcomes_to_results  # noqa
 from vc.speclib import below_input, fresh_node, EXPR_KINDS, SHAPE
 from vc.symexec import (Atom, ExtVal, FuncRef, ListObj, Obj, Obligation, SStr, SeqMap, Sym, Unsupported, mk_str)
 
